@@ -24,7 +24,7 @@ func (Prop) Configs(tier string) []string {
 }
 func (Prop) SelfTest() error { return sm3ref.SelfTest() }
 func (Prop) Rule() string {
-	return "E1: BFS over histories of {Write(c) for 22 chunk sizes, Reset, Marshal->Unmarshal into fresh / used object} on a real sm3.New() object, " +
+	return "E1: BFS (depth 4 quick / 5 thorough, sharded by first operation) plus deviation-bounded histories (default write to horizon 8 with <= 2 departures; thorough: horizon 14 with <= 2 and horizon 6 with <= 3) over {Write(c) for 22 chunk sizes, Reset, Marshal->Unmarshal into fresh / used object} on a real sm3.New() object, " +
 		"oracle after every step = reference SM3 of the bytes since the last Reset via Sum(nil) and Sum(prefix), Sum must leave the private state dump unchanged; " +
 		"states are merged only on identical full private state (h, x incl. stale bytes, nx, len) + model length. " +
 		"E2: full product len(z) x keyLen for sm3.Kdf, kdf.Kdf(sm3.New), kdf.Kdf over wrappers hiding KdfInterface / BinaryMarshaler, against SM3(z||ct) concatenation. " +
@@ -187,22 +187,41 @@ func laneClass(n int) string {
 }
 
 func (Prop) Run(c *engine.Ctx) {
-	// E1
-	depth := 3
+	// E1: BFS sharded by the first operation (one case per first op), remaining depth below it
+	depth := 4
 	if !c.Quick() {
-		depth = 4
+		depth = 5
 	}
-	c.Case(fmt.Sprintf("hash/bfs/depth=%d", depth), func(t *engine.T) {
-		engine.BFS(t, machine(), depth)
-	})
+	base := machine()
+	for first := range base.Ops {
+		first := first
+		c.Case(fmt.Sprintf("hash/bfs/first=%s/depth=%d", base.Ops[first], depth), func(t *engine.T) {
+			m := machine()
+			inner := m.New
+			m.Name = "sm3.New;" + m.Ops[first]
+			m.New = func() *state {
+				s := inner()
+				if !m.Step(s, first, t) {
+					t.Fail("hash/first-op-failed", "first operation %s failed", m.Ops[first])
+				}
+				return s
+			}
+			engine.BFS(t, m, depth-1)
+		})
+	}
+	// deviation-bounded long histories: a default write repeated to the horizon with <= b departures
+	hb := [][2]int{{8, 2}}
 	if !c.Quick() {
-		// deviation-bounded: default Write(64) to horizon 8 with <= 2 departures
-		c.Case("hash/deviations/def=Write(64)/h=8/b=2", func(t *engine.T) {
-			engine.Deviations(t, machine(), 7, 8, 2)
-		})
-		c.Case("hash/deviations/def=Write(1)/h=8/b=2", func(t *engine.T) {
-			engine.Deviations(t, machine(), 1, 8, 2)
-		})
+		hb = [][2]int{{14, 2}, {6, 3}}
+	}
+	for _, x := range hb {
+		h, b := x[0], x[1]
+		for _, def := range []int{7, 1, 4} { // Write(64), Write(1), Write(56)
+			def := def
+			c.Case(fmt.Sprintf("hash/deviations/def=%s/h=%d/b=%d", base.Ops[def], h, b), func(t *engine.T) {
+				engine.Deviations(t, machine(), def, h, b)
+			})
+		}
 	}
 	// one-shot sm3.Sum for all lengths 0..600 (every residue mod 64 across 1..9 blocks)
 	c.Case("hash/oneshot/0..600", func(t *engine.T) {
